@@ -1188,6 +1188,11 @@ def validate(res, traces, pool, tmp, need_actions=(), label="trace", max_rounds=
     while pending:
         rounds += 1
         if rounds > max_rounds:
+            if found:
+                # many defects per trace (e.g. a helper wrong for dozens of inputs): the remainder of the
+                # failing traces is left unexamined; what was found is reported
+                res.note("%s_validation_truncated_after_rounds" % label, max_rounds)
+                break
             raise MachineryError("trace validation did not converge (%d traces still failing)" % len(pending))
         runs, verdicts = _validate_once([p[2] for p in pending], pool, tmp)
         nxt = []
